@@ -73,6 +73,9 @@ def gen_file(rng, knobs=None):
     knobs.setdefault("p_break", rng.choice([0.0, 0.0, 0.05, 0.15]))
     knobs.setdefault("p_seq", rng.choice([0.0, 0.3, 1.0]))
     knobs.setdefault("p_label", rng.choice([0.1, 0.25, 0.9]))
+    if not knobs.get("length_limit", True):
+        # with the length limit off, statement text may run beyond column 72
+        knobs.setdefault("width", rng.choice([66, 100, 120]))
     lines, pss, regions, ncont = [], [], set(), 0
     for _ in range(rng.choice([1, 2, 3, 5])):
         while rng.random() < 0.25:
